@@ -40,6 +40,13 @@ def sem_level(ctx):
         recipe.conform(ctx, 'sem-finerelease-%d-%d' % (init, maxb), g, SemAdapter,
                        mon_module='SemMonitor', mon_invariants=INV, mon_properties=PROPS,
                        mon_constants=c)
+        # the parked call may already have made its test: states reached by other than the shortest path
+        _, behs = recipe.design_check(ctx, 'sem-finerelease-walks-%d-%d' % (init, maxb), 'Sem', c,
+                                      invariants=INV, properties=PROPS, emit=True,
+                                      simulate=400 if not thorough else 3000, depth=14)
+        recipe.conform(ctx, 'sem-finerelease-walks-%d-%d' % (init, maxb), behs, SemAdapter,
+                       mon_module='SemMonitor', mon_invariants=INV, mon_properties=PROPS,
+                       mon_constants=c, monitor_all=True)
     # clear() racing with the threads that release slots: two-step clear
     for init, maxb in ([(2, 3)] if not thorough else [(1, 2), (2, 3), (3, 4)]):
         c = consts(init, maxb, fine=True, locked=CLEAR_IS_LOCKED)
